@@ -15,8 +15,46 @@ use vmodel::{ensure, fail};
 type Conv = fn(&syn::Meta) -> Result<String, darling_core::Error>;
 type Std = fn(&str) -> Option<String>;
 
+thread_local! {
+    static ENTRY_MISMATCH: std::cell::RefCell<Option<String>> = std::cell::RefCell::new(None);
+}
+
+/// A literal value reaches the same conversion by every entry point: `from_meta` on `v = <lit>`, `from_value` on the literal
+/// and - for a string literal - `from_string` on its text (what a wrapper type or a `with` function calls) agree on
+/// acceptance and on the value. A disagreement is left in ENTRY_MISMATCH for the caller to report.
+fn all_entries<T: FromMeta>(m: &syn::Meta, show: &dyn Fn(T) -> String) -> Result<String, darling_core::Error> {
+    let via_meta = T::from_meta(m).map(|v| show(v));
+    if let syn::Meta::NameValue(nv) = m {
+        if let syn::Expr::Lit(syn::ExprLit { lit, .. }) = &nv.value {
+            let mut others: Vec<(&str, Result<String, darling_core::Error>)> = vec![("from_value", T::from_value(lit).map(|v| show(v)))];
+            if let syn::Lit::Str(s) = lit {
+                others.push(("from_string", T::from_string(&s.value()).map(|v| show(v))));
+            }
+            for (entry, r) in others {
+                let same = match (&via_meta, &r) {
+                    (Ok(a), Ok(b)) => a == b,
+                    (Err(_), Err(_)) => true,
+                    _ => false,
+                };
+                if !same {
+                    let d = |x: &Result<String, darling_core::Error>| match x {
+                        Ok(v) => format!("Ok({})", v),
+                        Err(e) => format!("Err({})", e),
+                    };
+                    ENTRY_MISMATCH.with(|c| *c.borrow_mut() = Some(format!("from_meta gives {}, {} on the same literal gives {}", d(&via_meta), entry, d(&r))));
+                }
+            }
+        }
+    }
+    via_meta
+}
+
+fn take_entry_mismatch() -> Option<String> {
+    ENTRY_MISMATCH.with(|c| c.borrow_mut().take())
+}
+
 fn conv<T: FromMeta + std::fmt::Display>(m: &syn::Meta) -> Result<String, darling_core::Error> {
-    T::from_meta(m).map(|v| v.to_string())
+    all_entries::<T>(m, &|v| v.to_string())
 }
 fn std_parse<T: std::str::FromStr + std::fmt::Display>(s: &str) -> Option<String> {
     s.parse::<T>().ok().map(|v| v.to_string())
@@ -35,7 +73,7 @@ pub fn int_targets() -> Vec<(&'static str, Conv, Std)> {
 }
 
 fn conv_f<T: FromMeta + Into<f64> + Copy>(m: &syn::Meta) -> Result<String, darling_core::Error> {
-    T::from_meta(m).map(|v| format!("{:016x}", Into::<f64>::into(v).to_bits()))
+    all_entries::<T>(m, &|v| format!("{:016x}", Into::<f64>::into(v).to_bits()))
 }
 fn std_f32(s: &str) -> Option<String> {
     s.parse::<f32>().ok().map(|v| format!("{:016x}", (v as f64).to_bits()))
@@ -180,7 +218,11 @@ pub fn check_int(ctx: &Ctx, c: &IntCase, targets: &[(&'static str, Conv, Std)]) 
             Err(p) => fail!("c11:panic", "{}::from_meta(`{}`) panicked: {}", name, src, p),
         };
         let what = format!("{}::from_meta", name);
+        if let Some(msg) = take_entry_mismatch() {
+            fail!("c11:entry-points-disagree", "{} on `{}`: {}", name, src, msg);
+        }
         check_grouped(&got, &m, &|x| conv(x), &what, &src)?;
+        take_entry_mismatch();
         match (&got, &want) {
             (Ok(g), Some(w)) => {
                 ensure!(
@@ -560,7 +602,7 @@ fn conv_misc(target: &str, m: &syn::Meta) -> Result<String, darling_core::Error>
         "bool" => conv::<bool>(m),
         "char" => conv::<char>(m),
         "String" => conv::<String>(m),
-        "PathBuf" => std::path::PathBuf::from_meta(m).map(|p| p.to_string_lossy().to_string()),
+        "PathBuf" => all_entries::<std::path::PathBuf>(m, &|p| p.to_string_lossy().to_string()),
         "u8" => conv::<u8>(m),
         "i64" => conv::<i64>(m),
         "NonZeroU8" => conv::<NonZeroU8>(m),
@@ -578,7 +620,11 @@ pub fn check_misc(ctx: &Ctx, c: &MiscCase) -> Result<(), Fail> {
         Err(p) => fail!("c11:panic", "{}::from_meta(`{}`) panicked: {}", c.target, c.src, p),
     };
     let what = format!("{}::from_meta", c.target);
+    if let Some(msg) = take_entry_mismatch() {
+        fail!("c11:entry-points-disagree", "{} on `{}`: {}", c.target, c.src, msg);
+    }
     check_grouped(&got, &m, &|x| conv_misc(&c.target, x), &what, &c.src)?;
+    take_entry_mismatch();
     match (&got, &c.expect) {
         (Ok(g), Some(w)) => ensure!(g == w, format!("c11:wrong-value:{}", c.kind), "{}(`{}`) = {:?}, expected {:?}", what, c.src, g, w),
         (Ok(g), None) => {
